@@ -17,6 +17,10 @@ func init() { register("C17", c17) }
 
 func c17(p *core.Program, r *core.Report) {
 	r.Rule("R1", "first-arrival safety: in every reduce closure handed to executor.mapReduce, the accumulator parameter (nil when the first shard result arrives, whichever shard that is) is type-asserted only in comma-ok form or under a nil test; the value mapReduce returns (nil when no shard answered or on error) is asserted the same way or after the error check")
+	r.Rule("R6", "shaping lists are computed cluster-wide: in an executor method that runs map/reduce, a call of another cluster-wide execute* method (one that takes *execOptions and is not a *Shard function) is handed the method's own options only on paths where opt.Remote was tested false; otherwise options with Remote cleared")
+	c17ShapingListsAreGlobal(p, r)
+	r.Rule("R5", "order-independent row reducers: every reduce function literal of package pilosa that asserts both partial results to a struct with ID and Count and returns one of them is abstractly executed for every ordering of the two IDs, the two counts and 0, and again with the operands exchanged; with different IDs both runs must choose the same partial result, with equal IDs and different positive counts both must combine the counts")
+	c17PairReducers(p, r)
 	r.Rule("R2", "order-independent value reducers: every ValCount method of shape (other ValCount) ValCount is abstractly executed for every weak ordering of {vc.Val, other.Val, vc.Count, other.Count, 0} (counts >= 0); the result as an abstract value must equal the result with the two operands exchanged, and when both operands hold the same value with positive counts the returned count must be the sum of both")
 	r.Rule("R3", "single ownership function: executor.shardsByNode decides placement only through cluster.shardNodes/ShardNodes (shared with C20)")
 	r.Rule("R4", "candidates are cut only after the exact recount: in executeTopN the only truncation to n applies to the list returned by the second, ids-restricted executeTopNShards call made by the original caller; a node answering a remote leg returns its whole merged candidate list (cutting it there makes the candidate set depend on which node coordinates and how shards are grouped onto nodes)")
